@@ -298,7 +298,13 @@ def documents(draw):
                 tree = ["mul", tree, gen.sym(lid)]
         def side():
             picks = draw(st.lists(st.sampled_from(rx_species), max_size=2, unique=True))
-            return [(s, draw(st.sampled_from([1, 1, 2, 3]))) for s in picks]
+            out = [(s, draw(st.sampled_from([1, 1, 2, 3]))) for s in picks]
+            if out and draw(st.integers(0, 4)) == 0:
+                # the same species named by two speciesReference entries of one side (valid SBML: stoichiometries add)
+                s0, n0 = out[draw(st.integers(0, len(out) - 1))]
+                out.append((s0, draw(st.sampled_from([1, 2]))))
+                out = list(draw(st.permutations(out)))
+            return out
         reactants, products = side(), side()
         used = ref.tree_symbols(tree)
         mods = [s for s in sp_names if s in used and s not in [x for x, _ in reactants + products]]
